@@ -106,6 +106,7 @@ pub fn run(ctx: &Ctx) -> i32 {
     par_for(blocks.len(), |i| trace_block(ctx, &fam, &blocks[i]));
     tamper_pass(ctx, &fam, thorough);
     cross_definition(ctx, &fam, thorough);
+    perturbed_quotient(ctx, &fam, thorough);
 
     let variant = crate::variant_name();
     ctx.finish(Finish {
@@ -445,5 +446,58 @@ fn cross_definition(ctx: &Ctx, fam: &[Member], thorough: bool) {
                 }
             });
         }
+    });
+}
+
+
+/// Adversarial prover strategy (knob H3b): the honest trace, but the quotient polynomial of ONE
+/// challenge index is perturbed before it is committed. The proof is transcript-consistent and
+/// FRI-valid; only the identity vanishing(zeta) = Z_H(zeta) * t(zeta) for that challenge is false,
+/// so the verifier must reject for EVERY index (a verifier that checks only some of the challenges,
+/// or reuses one alpha, accepts for the others).
+fn perturbed_quotient(ctx: &Ctx, fam: &[Member], thorough: bool) {
+    let ks: Vec<usize> = if thorough { vec![2, 3, 5] } else { vec![3] };
+    let mut cases: Vec<(usize, usize, Cfg, usize)> = Vec::new();
+    for (mi, m) in fam.iter().enumerate() {
+        if m.def.degree == 0 {
+            continue; // no quotient at all
+        }
+        for &k in &ks {
+            for nch in [1usize, 2, 3] {
+                let mut cfg = base_cfg(&m.def);
+                cfg.num_challenges = nch;
+                if !cfg.admissible(&m.def, k) {
+                    continue;
+                }
+                for j in 0..nch {
+                    cases.push((mi, k, cfg.clone(), j));
+                }
+            }
+        }
+    }
+    ctx.count("perturbed_quotient_cases", cases.len() as u64);
+    par_for(cases.len(), |i| {
+        let (mi, k, cfg, j) = &cases[i];
+        let m = &fam[*mi];
+        let case = format!("perturb|{}|k{}|{}|challenge{}", m.def.name, k, cfg.tag(), j);
+        if !ctx.want(&case) {
+            return;
+        }
+        ctx.case("verify/perturbed-quotient-accepted", &case, || {
+            let sc = cfg.stark_config();
+            let (rows, pis) = m.trace(1 << k, 0);
+            starky::verif_hooks::knobs::set_quotient_perturb(Some((*j, 1)));
+            let out = prove_def(&m.def, &sc, &rows, &pis, true);
+            starky::verif_hooks::knobs::set_quotient_perturb(None);
+            ctx.transition(1);
+            match out {
+                ProveOutcome::Proof(p) => match verify_def(&m.def, &sc, *p) {
+                    Verdict::Accepted => Err(format!("a proof whose quotient polynomial for challenge {j} of {} was perturbed is ACCEPTED", cfg.num_challenges)),
+                    Verdict::Rejected(_) => Ok(format!("perturbed-quotient:rejected:ch{}of{}", j, cfg.num_challenges)),
+                    Verdict::Panicked(_) => Ok("perturbed-quotient:verifier-panic".into()),
+                },
+                _ => Ok("perturbed-quotient:noproof".into()),
+            }
+        });
     });
 }
